@@ -18,7 +18,7 @@ import vcheck as V
 
 FILES = ["walsim.go"]
 MUTANTS = ["no-flush-on-entries", "no-fsync-on-vote", "header-without-state", "rewrite-below-commit",
-           "release-keeps-one-less", "release-anywhere"]
+           "release-keeps-one-less", "release-anywhere", "snap-sets-enti"]
 
 
 def _misnamed(seg):
@@ -111,7 +111,7 @@ def drive(ctx, zr, name, args, parts, stats, samples, timeout=2400):
             ctx.skipped += 1
             continue
         for k in ("histories", "sim_histories", "calls", "cuts", "restarts", "images", "repaired", "big_entries",
-                  "segments_purged", "releases", "syncs", "concurrent_batches"):
+                  "segments_purged", "releases", "syncs", "concurrent_batches", "second_lives"):
             stats[k] = stats.get(k, 0) + summ.get(k, 0)
         stats["max_entry_bytes"] = max(stats.get("max_entry_bytes", 0), summ.get("max_entry_bytes", 0))
         for k in ("by_kind", "by_tail", "by_outcome"):
@@ -238,7 +238,7 @@ def run(ctx):
                                                "-maximg", "10"], parts, stats, samples)
     else:
         _, files = drive(ctx, zr, "general", ["-seed", seed, "-sim", simdir, "-random", "50", "-len", "14",
-                                               "-maximg", "40"], parts, stats, samples)
+                                               "-maximg", "40", "-lifeall"], parts, stats, samples)
         # every byte offset of the unsynced tail, every bit of every synced record header
         drive(ctx, zr, "dense", ["-seed", str(ctx.seed + 100), "-random", "12", "-len", "8",
                                   "-dense", "-imgevery", "2"], parts, stats, samples)
@@ -253,6 +253,11 @@ def run(ctx):
         drive(ctx, zr, "sizes", ["-seed", seed, "-sizes", "1"], 1, stats, samples)
     else:
         drive(ctx, zr, "sizes", ["-seed", seed, "-sizes", "6", "-sizevariants", "3"], 3, stats, samples)
+    # torn multi-page batches with a second life after every damaged image (reopen, re-send some
+    # of the lost entries byte-identically or save fresh ones, close, reopen: nothing that lay behind
+    # the write position may resurface)
+    drive(ctx, zr, "bigbatch", ["-seed", seed, "-random", "4" if q else "24", "-bigbatch", "-lifeall", "-maximg", "24"],
+          4 if q else 8, stats, samples)
     # two goroutines on one WAL (raft loop: Save; snapshot goroutine: SaveSnapshot + ReleaseLockTo);
     # the calls are logged in the order the WAL's mutex serialized them, read off the record order
     drive(ctx, zr, "concurrent", ["-seed", seed, "-conc", "12" if q else "120", "-maximg", "6"], 2 if q else 6, stats, samples)
@@ -323,7 +328,7 @@ def run(ctx):
         model_runs=runs,
         histories=stats.get("histories", 0), tlc_generated_histories=stats.get("sim_histories", 0),
         calls=stats.get("calls", 0), segment_rolls=stats.get("cuts", 0), clean_restarts=stats.get("restarts", 0),
-        concurrent_batches=stats.get("concurrent_batches", 0), lock_releases=stats.get("releases", 0), wal_syncs=stats.get("syncs", 0), segments_purged=stats.get("segments_purged", 0),
+        second_lives=stats.get("second_lives", 0), concurrent_batches=stats.get("concurrent_batches", 0), lock_releases=stats.get("releases", 0), wal_syncs=stats.get("syncs", 0), segments_purged=stats.get("segments_purged", 0),
         entries_over_1MB=stats.get("big_entries", 0), largest_entry_bytes=stats.get("max_entry_bytes", 0),
         events_validated=stats["events"], mismatching_lines=stats["mismatches"],
         fault_enumeration=dict(
